@@ -21,6 +21,16 @@ func checkC16(c *Ctx) {
 	rulePrintableInterval(c, "C16.d")
 	c.rule("C16.e", "use for mailbox names: the wire encoder applies modified UTF-7 exactly where the decoder inverts it", 26)
 	ruleMailboxTransform(c, "C16.e")
+	ruleUTF7Chunking(c, "C16.a", "C16.b", "C16.c")
+	c.rule("C16.f", "transformer state is re-initialised at the end of a call only at end of input", 1)
+	ruleTransformerStateAtEOF(c, "C16.f")
+	c.rule("C16.g", "no stateful transformer is shared through a package-level variable", 1)
+	ruleNoSharedTransformer(c, "C16.g")
+}
+
+// ruleUTF7Chunking: the chunking clauses of both Transform methods (also run
+// under C01: Encoder.Mailbox feeds the transformer 128-byte chunks).
+func ruleUTF7Chunking(c *Ctx, ra, rb, rc string) {
 	p := c.P
 	pk := p.Pkgs[modPath+"/internal/utf7"]
 	n := 0
@@ -40,7 +50,7 @@ func checkC16(c *Ctx) {
 			nSrc, errName := sig.Results().At(1).Name(), sig.Results().At(2).Name()
 			fn := strings.TrimPrefix(recv, "*") + ".Transform"
 			if nSrc == "" || errName == "" {
-				c.undecided("C16.a", fn, fd.Pos(), "results are not named: the rule's anchors (nSrc, err) cannot be identified")
+				c.undecided(ra, fn, fd.Pos(), "results are not named: the rule's anchors (nSrc, err) cannot be identified")
 				continue
 			}
 			parents := map[ast.Node]ast.Node{}
@@ -89,8 +99,10 @@ func checkC16(c *Ctx) {
 				return mentions(ifs.Body, "transform.ErrShortDst") && endsInReturn(ifs.Body)
 			}
 			// precededByCheck: walking outwards from stmt, some earlier sibling in an enclosing block (up to the loop body) is a dst check
+			var lastCheck ast.Stmt
 			precededByCheck := func(n ast.Node) bool {
 				cur := n
+				lastCheck = nil
 				for cur != nil {
 					par := parents[cur]
 					if blk, ok := par.(*ast.BlockStmt); ok {
@@ -99,6 +111,7 @@ func checkC16(c *Ctx) {
 								break
 							}
 							if s.Pos() < cur.Pos() && isDstCheck(s) {
+								lastCheck = s
 								return true
 							}
 						}
@@ -140,7 +153,7 @@ func checkC16(c *Ctx) {
 				}
 				return true
 			})
-			c.check(shortSrc, "C16.a", fn+": ErrShortSrc when !atEOF", fd.Pos(), "an incomplete unit at the end of a non-final chunk yields ErrShortSrc",
+			c.check(shortSrc, ra, fn+": ErrShortSrc when !atEOF", fd.Pos(), "an incomplete unit at the end of a non-final chunk yields ErrShortSrc",
 				"Transform never reports ErrShortSrc on a non-final chunk: a unit cut by the 128-byte chunking of transform.String is emitted truncated (names longer than one chunk are corrupted)")
 			// (b), (c)
 			kb, kc := 0, 0
@@ -151,20 +164,53 @@ func checkC16(c *Ctx) {
 						if ix, ok := l.(*ast.IndexExpr); ok {
 							if id, ok := ix.X.(*ast.Ident); ok && id.Name == dst {
 								kb++
-								c.check(precededByCheck(x), "C16.b", fmt.Sprintf("%s: write dst[…]#%d", fn, kb), x.Pos(), "preceded by a len(dst) check that returns ErrShortDst",
+								okCheck := precededByCheck(x)
+								c.check(okCheck, rb, fmt.Sprintf("%s: write dst[…]#%d", fn, kb), x.Pos(), "preceded by a len(dst) check that returns ErrShortDst",
 									"dst is written without a preceding destination-space check: the transformer writes past the buffer it was given (panic) or corrupts the chunking protocol")
+								// what the check pays for: `nDst+len(b) > len(dst)` covers the bytes
+								// of b only — the write must sit in a `range b` loop; a check
+								// without such a term covers a single byte
+								if okCheck && lastCheck != nil {
+									budget := ""
+									ast.Inspect(lastCheck.(*ast.IfStmt).Cond, func(q ast.Node) bool {
+										if call, ok := q.(*ast.CallExpr); ok {
+											if f, ok := call.Fun.(*ast.Ident); ok && f.Name == "len" && len(call.Args) == 1 {
+												if a, ok := call.Args[0].(*ast.Ident); ok && a.Name != dst {
+													budget = a.Name
+												}
+											}
+										}
+										return true
+									})
+									if budget != "" {
+										covered := false
+										for cur := ast.Node(x); cur != nil && cur != ast.Node(lastCheck); cur = parents[cur] {
+											if rs, ok := cur.(*ast.RangeStmt); ok {
+												if id, ok := rs.X.(*ast.Ident); ok && id.Name == budget {
+													covered = true
+												}
+											}
+											if fs, ok := cur.(*ast.ForStmt); ok && fs.Cond != nil && strings.Contains(types.ExprString(fs.Cond), "len("+budget+")") {
+												covered = true
+											}
+										}
+										// copy(dst[nDst:], b) style is a CallExpr, not an index write; only index writes get here
+										c.check(covered, rb, fmt.Sprintf("%s: write dst[…]#%d is paid for by the check", fn, kb), x.Pos(), "inside the loop over "+budget+", whose length the check reserved",
+											"the space check before this write reserves len("+budget+") bytes, but the write is not one of the bytes of "+budget+": when "+budget+" fills dst exactly the extra byte is written past the end (index out of range)")
+									}
+								}
 							}
 						}
 						if id, ok := l.(*ast.Ident); ok && id.Name == nSrc && x.Tok != token.DEFINE {
 							kc++
-							c.check(precededByCheck(x), "C16.c", fmt.Sprintf("%s: %s advanced#%d", fn, nSrc, kc), x.Pos(), "advanced after the destination-space check",
+							c.check(precededByCheck(x), rc, fmt.Sprintf("%s: %s advanced#%d", fn, nSrc, kc), x.Pos(), "advanced after the destination-space check",
 								"the consumed-input counter is advanced before the destination-space check: when dst is full the unit is reported consumed but never written, and is silently dropped at every chunk boundary")
 						}
 					}
 				case *ast.IncDecStmt:
 					if id, ok := x.X.(*ast.Ident); ok && id.Name == nSrc {
 						kc++
-						c.check(precededByCheck(x), "C16.c", fmt.Sprintf("%s: %s advanced#%d", fn, nSrc, kc), x.Pos(), "advanced after the destination-space check",
+						c.check(precededByCheck(x), rc, fmt.Sprintf("%s: %s advanced#%d", fn, nSrc, kc), x.Pos(), "advanced after the destination-space check",
 							"the consumed-input counter is advanced before the destination-space check")
 					}
 				}
@@ -257,4 +303,103 @@ func rulePrintableInterval(c *Ctx, rule string) {
 			})
 		}
 	}
+}
+
+// ruleTransformerStateAtEOF: C16.f. The decoder carries `ascii` ("the previous
+// token was not a base64 run") from one Transform call to the next; that is
+// what rejects back-to-back shifts split across two chunks. State may be
+// re-initialised at the end of a call only when the input is finished: every
+// assignment to a receiver field that follows the main loop of a Transform
+// method sits under `if atEOF`.
+func ruleTransformerStateAtEOF(c *Ctx, rule string) {
+	p := c.P
+	pk := p.Pkgs[modPath+"/internal/utf7"]
+	if pk == nil {
+		c.unresolvedRoot("internal/utf7")
+		return
+	}
+	n := 0
+	for _, file := range pk.Syntax {
+		for _, d := range file.Decls {
+			fd, ok := d.(*ast.FuncDecl)
+			if !ok || fd.Name.Name != "Transform" || fd.Recv == nil || fd.Body == nil || len(fd.Recv.List) != 1 || len(fd.Recv.List[0].Names) != 1 {
+				continue
+			}
+			recv := fd.Recv.List[0].Names[0].Name
+			sig := pk.TypesInfo.Defs[fd.Name].Type().(*types.Signature)
+			if sig.Params().Len() != 3 {
+				continue
+			}
+			atEOF := sig.Params().At(2).Name()
+			name := strings.TrimPrefix(types.ExprString(fd.Recv.List[0].Type), "*") + ".Transform"
+			afterLoop := false
+			for _, st := range fd.Body.List {
+				if _, isFor := st.(*ast.ForStmt); isFor {
+					afterLoop = true
+					continue
+				}
+				if !afterLoop {
+					continue
+				}
+				// assignments to receiver fields in this tail statement, with the conditions around them
+				var walk func(nd ast.Node, underEOF bool)
+				walk = func(nd ast.Node, underEOF bool) {
+					switch x := nd.(type) {
+					case *ast.IfStmt:
+						cond := types.ExprString(x.Cond)
+						walk(x.Body, underEOF || (strings.Contains(cond, atEOF) && !strings.Contains(cond, "!"+atEOF)))
+						if x.Else != nil {
+							walk(x.Else, underEOF || strings.Contains(cond, "!"+atEOF))
+						}
+					case *ast.BlockStmt:
+						for _, s2 := range x.List {
+							walk(s2, underEOF)
+						}
+					case *ast.AssignStmt:
+						for _, l := range x.Lhs {
+							if se, ok := l.(*ast.SelectorExpr); ok {
+								if id, ok := se.X.(*ast.Ident); ok && id.Name == recv {
+									n++
+									c.check(underEOF, rule, fmt.Sprintf("%s: end-of-call store to %s.%s#%d", name, recv, se.Sel.Name, n), x.Pos(), "only when atEOF",
+										"the transformer's state field "+se.Sel.Name+" is re-initialised at the end of every call, not only at end of input: what the decoder knew about the previous token is lost at each chunk boundary (back-to-back shifts split across two chunks are accepted)")
+								}
+							}
+						}
+					}
+				}
+				walk(st, false)
+			}
+		}
+	}
+	if n == 0 {
+		c.okTrivial(rule, "no Transform method re-initialises receiver state after its main loop", token.NoPos, "0 stores")
+	}
+}
+
+// ruleNoSharedTransformer: C16.g. encoding.Decoder / encoding.Encoder values
+// wrap a stateful transform.Transformer and are not safe for concurrent use:
+// the module creates one per conversion (utf7.Encoding.NewDecoder()). A
+// package-level variable of such a type is shared by every connection.
+func ruleNoSharedTransformer(c *Ctx, rule string) {
+	p := c.P
+	n := 0
+	var bad []string
+	var pos token.Pos
+	for _, pk := range p.All {
+		sc := pk.Types.Scope()
+		for _, nm := range sc.Names() {
+			v, ok := sc.Lookup(nm).(*types.Var)
+			if !ok {
+				continue
+			}
+			n++
+			t := v.Type().String()
+			if strings.Contains(t, "x/text/encoding.Decoder") || strings.Contains(t, "x/text/encoding.Encoder") || strings.HasSuffix(t, "transform.Transformer") || strings.HasSuffix(t, "utf7.decoder") || strings.HasSuffix(t, "utf7.encoder") {
+				bad = append(bad, pk.Types.Name()+"."+nm)
+				pos = v.Pos()
+			}
+		}
+	}
+	c.check(len(bad) == 0, rule, "no package-level transformer", pos, fmt.Sprintf("%d package-level variables, none holds a stateful transformer", n),
+		"the stateful transformer "+strings.Join(bad, ", ")+" is a package-level variable shared by all connections: concurrent conversions corrupt each other's state (valid names rejected, invalid ones accepted)")
 }
